@@ -54,6 +54,7 @@ type RespPlan struct {
 	GRPCStatusText   string      `json:"grpc_status_text,omitempty"` // override the text of grpc-status / numeric code
 	EndRaw           []byte      `json:"end_raw,omitempty"`          // override the bytes of the end-of-stream frame payload
 	EndFlags         *int        `json:"end_flags,omitempty"`
+	EndCompressed    bool        `json:"end_compressed,omitempty"` // the end-of-stream / trailer frame is compressed (its compressed bit set)
 	OmitEnd          bool        `json:"omit_end,omitempty"`   // never signal the end (missing grpc-status / end frame)
 	ExtraHdrs        [][2]string `json:"extra_hdrs,omitempty"` // raw control headers (hostile)
 	RawBody          []byte      `json:"raw_body,omitempty"`   // if non-nil replaces the rendered body (hostile)
@@ -773,6 +774,9 @@ func (h *backendHandler) renderResponse(st *rpcState, obs *BackendObs, override 
 				payload = rp.EndRaw
 			}
 			fl := byte(0x80)
+			if rp.EndCompressed && comp != "" && rp.EndRaw == nil {
+				payload, fl = refCompress(comp, payload), 0x81 // legal, if unusual: the trailer frame compressed like a message
+			}
 			if rp.EndFlags != nil {
 				fl = byte(*rp.EndFlags)
 			}
@@ -805,6 +809,9 @@ func (h *backendHandler) renderResponse(st *rpcState, obs *BackendObs, override 
 			payload = rp.EndRaw
 		}
 		fl := byte(0x02)
+		if rp.EndCompressed && comp != "" && rp.EndRaw == nil {
+			payload, fl = refCompress(comp, payload), 0x03
+		}
 		if rp.EndFlags != nil {
 			fl = byte(*rp.EndFlags)
 		}
